@@ -594,7 +594,7 @@ func enumerate(shard, nshards int, yield func(Case)) {
 				c.Presence, c.Required, c.Neighbours = "absent", true, true
 				emit(c)
 			}
-			if isPrim && (strings.HasPrefix(sh.name, "integer") || sh.name == "number" || sh.name == "boolean") {
+			if isPrim && (strings.Contains(sh.name, "integer") || sh.name == "number" || sh.name == "boolean") {
 				gs := []string{"abc", "1.5x", "--1", "tru"}
 				if sh.name == "integer-int32" {
 					// out of the 32-bit range: not an int32, and not a value satisfying the schema either
@@ -705,7 +705,7 @@ func gen(t *rapid.T) Case {
 			neutral = true // none of the neighbour keys is a declared member
 		}
 	case 1:
-		isNum := strings.HasPrefix(sh.name, "integer") || sh.name == "number" || sh.name == "boolean"
+		isNum := strings.Contains(sh.name, "integer") || sh.name == "number" || sh.name == "boolean"
 		if isNum {
 			gs := []string{"abc", "1.5x", "--1", "tru", "1e", "0x"}
 			if sh.name == "integer-int32" {
